@@ -96,12 +96,33 @@ MUTANTS = {
         "edits": [("Lib/fontTools/ttLib/ttCollection.py", "        with _sharedModifiedTimestamp(self.fonts):", "        if True:")],
         "check": ["C16", "--tier", "quick", "--only", "clock"],
     },
-    "c16_gettabledata_compiles_unloaded": {
+    "c01_gettabledata_compiles_unloaded": {
         "edits": [("Lib/fontTools/ttLib/ttFont.py", "        elif self.reader and tag in self.reader:\n            log.debug(\"Reading '%s' table from disk\", tag)\n            return self.reader[tag]", "        elif self.reader and tag in self.reader:\n            return self[tag].compile(self)")],
-        "check": ["C16", "--tier", "quick", "--only", "hist"],
+        "check": ["C01", "--tier", "quick"],
     },
     "c16_lazy_ligatures_not_decompiled": {
         "edits": [("Lib/fontTools/ttLib/tables/otTables.py", "                for lig in ligs:\n                    lig.ensureDecompiled(recurse)", "                pass")],
         "check": ["C16", "--tier", "quick", "--only", "hist,hist_ensure"],
+    },
+    # ---- C01
+    "c01_defaulttable_strips_nuls": {
+        "edits": [("Lib/fontTools/ttLib/tables/DefaultTable.py", "    def compile(self, ttFont: TTFont) -> bytes:\n        return self.data", "    def compile(self, ttFont: TTFont) -> bytes:\n        return self.data.rstrip(b\"\\0\")")],
+        "check": ["C01", "--tier", "quick"],
+    },
+    "c01_keys_decodes": {
+        "edits": [("Lib/fontTools/ttLib/ttFont.py", "        keys = list(self.tables.keys())\n        if self.reader:", "        keys = list(self.tables.keys())\n        if self.reader and \"name\" in self.reader:\n            self[\"name\"]\n        if self.reader:")],
+        "check": ["C01", "--tier", "quick"],
+    },
+    "c01_lazy_reader_wrong_entry": {
+        "edits": [("Lib/fontTools/ttLib/sfnt.py", "        entry = self.tables[Tag(tag)]\n        data = entry.loadData(self.file)", "        entry = self.tables[Tag(tag)]\n        if tag == \"cvt \" and \"fpgm\" in self.tables and self.file.__class__.__name__ == \"BufferedReader\":\n            entry = self.tables[Tag(\"fpgm\")]\n        data = entry.loadData(self.file)")],
+        "check": ["C01", "--tier", "quick"],
+    },
+    "c01_name_drops_langid_on_compile": {
+        "edits": [("Lib/fontTools/ttLib/tables/_n_a_m_e.py", "        names = self.names\n        names.sort()", "        names = [n for n in self.names if n.nameID != 5]\n        names.sort()")],
+        "check": ["C01", "--tier", "quick"],
+    },
+    "c01_silf_generator": {
+        "edits": [("Lib/fontTools/ttLib/tables/S__i_l_f.py", "        self.rules = [list(rules[s:e]) for (s, e) in zip(oRuleMap, oRuleMap[1:])]", "        self.rules = [rules[s:e] for (s, e) in zip(oRuleMap, oRuleMap[1:])]")],
+        "check": ["C01", "--tier", "quick"],
     },
 }
